@@ -64,6 +64,22 @@ def run_op(contract, opts):
                 rp = replay.replay_operator(w, run, o, opts)
             except Exception as ex:
                 rp = {'status': 'replay-error', 'error': f'{type(ex).__name__}: {ex}', 'trace': traceback.format_exc(limit=6)}
+            e2e = None
+            if hasattr(contract, 'e2e_confirm') and o.model is not None:
+                try:
+                    ctx = next((cx for key, cx in getattr(run, 'ctxs', {}).items() if o.name.startswith(key + '/')), None)
+                    e2e = contract.e2e_confirm(ctx, replay.Concretizer(o.model))
+                except Exception as ex:
+                    e2e = None
+                    rp['e2e_error'] = f'{type(ex).__name__}: {ex}'
+                if e2e:
+                    rp['end_to_end'] = e2e
+                    rp['status'] = 'reproduced'
+            if o.extra.get('needs_validation') and not e2e:
+                # candidate model from weakened hypotheses: it counts only when a real input reproduces the violation end to end
+                # (a function-level replay is not enough here: the candidate pre-state may violate the `requires`)
+                o.result = 'unknown'; o.backend = (o.backend or '') + ' candidate model not confirmed end-to-end'
+                continue
             violations.append({'obligation': o.name, 'replay': rp, 'model': model_text(o.model) if o.model is not None else None})
     return {
         'unit': contract.name, 'kind': 'deductive',
